@@ -182,6 +182,10 @@ def gen_client_plan(rng, prof=None):
                         'action': rng.choice(['disconnect', 'disconnect',
                                               'send', 'raise']),
                         'data': 'from-handler'})
+    elif rng.random() < p.get('p_greet', 0.15):
+        # the application says hello from its connect handler
+        actions.append({'event': 'connect', 'nth': 0, 'action': 'send',
+                        'data': 'from-handler'})
     plan = {'client': {'kind': kind, 'request_timeout': rt, 'ops': ops,
                        'handler_actions': actions,
                        'coroutine_handlers': True,
